@@ -373,4 +373,9 @@ def r_idioms(ctx):
     repo_idioms(ctx, "C09.R7", ('connection', 'server', 'twisted'))
 
 
-RULES = [("C09.R1", r1), ("C09.R2", r2), ("C09.R3", r3), ("C09.R4", r4), ("C09.R5", r5), ("C09.R6", r6), ("C09.R7", r_idioms)]
+def r8(ctx):
+    """'no sequence of send() calls can make packet construction ... lose queued messages': a queued message that can never be
+    admitted into an empty datagram is lost for good - shared obligation C05.R1 (capacity liveness for every MTU)"""
+    c05.r1(_Sub(ctx, "C09.R8"))
+
+RULES = [("C09.R1", r1), ("C09.R2", r2), ("C09.R3", r3), ("C09.R4", r4), ("C09.R5", r5), ("C09.R6", r6), ("C09.R7", r_idioms), ("C09.R8", r8)]
